@@ -63,6 +63,7 @@ def r2_set_table(chk: Check):
             "argument.generator": ("generated", True), "argument.constant": ("constant", True),
             "v is not None": ("v_none", False), "v is None": ("v_none", True),
             "argument.required": ("required", True),
+            "argument is None": ("is_arg", False), "argument is not None": ("is_arg", True),
         }
         if t in table:
             return table[t]
@@ -90,8 +91,11 @@ def r2_set_table(chk: Check):
 
     atoms = ["is_arg", "sealed", "bypass", "generated", "constant", "v_none", "required"]
     nsc = 0
+    nbad = 0
     for bits in itertools.product([False, True], repeat=len(atoms)):
         s = dict(zip(atoms, bits))
+        if s["sealed"]:
+            continue  # the sealed dimension belongs to C14.R1; here the configuration is open
         nsc += 1
         if not s["is_arg"]:
             want = ("plain attribute", "exit")
@@ -112,6 +116,9 @@ def r2_set_table(chk: Check):
             got = (ev[0] if ev else "nothing", o.end)
             ok = got == want and not [u for u in o.unknown if u[2] is None]
             if not ok:
+                nbad += 1
+                if nbad > 3:
+                    break
                 sc = ", ".join(f"{k}={'T' if v else 'F'}" for k, v in s.items())
                 chk.violation(chk.fkey(f, f"set() under [{','.join(k for k, v in s.items() if v)}]"),
                               f"ConfigInformation.set under [{sc}] does {ev or ['nothing']} and ends with {o.end}"
@@ -280,7 +287,7 @@ def r5_submit_validates_first(chk: Check):
 
 RULES = [
     ("R1", "every Type.validate is total: no non-raising path returns None / falls off the end (except None stays None)", r1_validate_total),
-    ("R2", "ConfigInformation.set decision table over all 128 assignments of its atoms: stores the *validated* value, raises when sealed / read-only / required-None; nobody else stores into values; Argument.validate returns the coerced value", r2_set_table),
+    ("R2", "ConfigInformation.set decision table over all 64 assignments of its atoms on an unsealed configuration: stores the *validated* value, raises when sealed / read-only / required-None; nobody else stores into values; Argument.validate returns the coerced value", r2_set_table),
     ("R3", "documented coercions and container validation: integral float -> int, int -> float, str -> Path; every element / key / value validated and the container rebuilt; Union raises when no member accepts", r3_coercions),
     ("R4", "the required-value check reaches the whole graph: direct values, list elements, dict *values*, pre-tasks, init tasks; missing required (not generated) raises", r4_required_reaches_graph),
     ("R5", "submit validates and seals before anything is registered (= C14.R3)", r5_submit_validates_first),
